@@ -526,7 +526,13 @@ func (e *erasureCodingPartStore) newPartReader(ctx context.Context, tx database.
 				_ = pw.CloseWithError(fmt.Errorf("insufficient shards in stripe %d", stripeIndex))
 				return
 			}
-			if err := enc.ReconstructData(shards); err != nil {
+			reconstruct := enc.ReconstructData
+			for i := e.dataShards; i < e.totalShards; i++ {
+				if healPipeWriters[i] != nil && shards[i] == nil {
+					reconstruct = enc.Reconstruct
+				}
+			}
+			if err := reconstruct(shards); err != nil {
 				closeHealingWriters(err)
 				_ = pw.CloseWithError(err)
 				return
